@@ -180,7 +180,46 @@ def c16_extra(tier, seed, log):
                     ev["probes"][n] = "inconclusive: compile error unrelated to lifetimes: " + out[-300:]
     finally:
         shutil.rmtree(d, ignore_errors=True)
+    if tier == "thorough":
+        mv, mev = _c16_miri(seed)
+        viol += mv
+        ev["miri"] = mev
     return {"violations": viol, "evidence": ev}
+
+
+def _c16_miri(seed):
+    """thorough tier: the C16 case file (every 3rd line) through the harness under Miri (nightly, offline), built WITHOUT the poisoning
+    hook, so a read of an unwritten MaybeUninit slot or an out-of-bounds access is reported as undefined behaviour by the interpreter
+    itself.  Tree Borrows is selected because the crate's terminal accessors hand out shared references next to `&mut self` updates
+    (finding F4), which Stacked Borrows rejects on every device line of the unchanged crate.  Dynamic analysis, not proof."""
+    import random as _r, cases as _c
+    verif = os.path.dirname(os.path.dirname(os.path.abspath(__file__)))
+    harness = os.path.join(verif, "harness")
+    lines = _c.gen_C16(_r.Random(seed), "quick")[::3]
+    e = dict(os.environ)
+    e["CARGO_NET_OFFLINE"] = "true"
+    e.pop("RUSTFLAGS", None)
+    e["MIRIFLAGS"] = "-Zmiri-disable-isolation -Zmiri-tree-borrows -Zmiri-ignore-leaks"
+    t0 = time.time()
+    try:
+        p = subprocess.run(["cargo", "+nightly", "miri", "run", "--offline", "--quiet", "--target-dir", os.path.join(harness, "target", "miri")],
+                           cwd=harness, env=e, input="\n".join(lines) + "\n", stdout=subprocess.PIPE, stderr=subprocess.PIPE, text=True,
+                           timeout=3000)
+    except Exception as ex:
+        return [], {"status": "not run: " + repr(ex)[:200]}
+    outl = [l for l in p.stdout.split("\n") if l != ""]
+    ev = {"lines": len(lines), "answered": len(outl), "wall_s": round(time.time() - t0, 1), "flags": e["MIRIFLAGS"]}
+    if "Undefined Behavior" in p.stderr:
+        k = len(outl)
+        msg = next((l for l in p.stderr.splitlines() if "Undefined Behavior" in l), "")[:300]
+        ev["status"] = "UNDEFINED BEHAVIOUR: " + msg
+        return [{"kind": "Miri reports undefined behaviour in the crate on a C16 case: " + msg, "case": lines[k] if k < len(lines) else "?",
+                 "found_input": True}], ev
+    if p.returncode != 0 and len(outl) < len(lines):
+        ev["status"] = "inconclusive: miri could not be run (" + p.stderr[-300:] + ")"
+        return [], ev
+    ev["status"] = "no undefined behaviour reported"
+    return [], ev
 
 
 # ------------------------------------------------------------------------------------------- C17: to_dyn! in a downstream crate
